@@ -33,4 +33,4 @@ for C in "$@"; do
     if echo "$OUT" | grep -q VIOLATION; then break; fi
   done
 done
-find /verif/replays -newer $SEED/_seed/patch.diff -name "*.json*" -delete 2>/dev/null
+git -C /verif clean -fq replays 2>/dev/null
